@@ -148,8 +148,10 @@ func checkC01(r *mon.Run) {
 		for i := 0; i < perStar; i++ {
 			c01Case(r, rng, s, i)
 		}
+		c01IdlePhase(r, rng, s)
 	})
-	r.Require(int64(nStars*perStar), 60, "valid_accepted", "perturbed_rejected_scmp", "expired_rejected", "xover_second_hop_rejected", "epic_wrapped", "valid_then_tampered_pair")
+	r.Require(int64(nStars*perStar), 60, "valid_accepted", "perturbed_rejected_scmp", "expired_rejected", "xover_second_hop_rejected", "epic_wrapped", "valid_then_tampered_pair",
+		"idle_accepted_before_expiry", "idle_rejected_after_expiry")
 }
 
 func c01Case(r *mon.Run, rng *rand.Rand, s *rfix.Star, idx int) {
@@ -426,4 +428,89 @@ func checkScmpPointerOnWire(r *mon.Run, s *rfix.Star, sc *rfix.Scn, pname string
 		r.Violation("C01:scmp-wire-pointer", fmt.Sprintf("emitted SCMP type %d pointer %d, want type 4 pointer %d", m.Type, m.Pointer, want), witness(s, sc, pname, in, res))
 	}
 	_ = binary.BigEndian
+}
+
+// c01IdlePhase: hop fields that expire while the processor sits idle. A batch
+// of valid packets whose hop at this router expires 0.5-1.5 s from now is
+// processed (accepted while fresh), the fixture then stays idle until all of
+// them have expired, and the very same packets are offered again: none may be
+// forwarded, however the router keeps its notion of the current time.
+func c01IdlePhase(r *mon.Run, rng *rand.Rand, s *rfix.Star) {
+	type item struct {
+		sc  *rfix.Scn
+		in  []byte
+		exp int64
+		out bool
+	}
+	var items []item
+	now := time.Now()
+	var latest int64
+	for len(items) < 24 {
+		sc := s.GenScenario(rng, rfix.Shape(rng.IntN(int(rfix.NumShapes))), now.Unix())
+		tgt := sc.LocalHops[0]
+		segIdx, _ := sc.Spec.Locate(tgt)
+		seg := sc.Spec.Segs[segIdx].Seg
+		hop := sc.Spec.HopAt(tgt)
+		hop.Exp = uint8(rng.IntN(256))
+		life := time.Duration(rfix.ExpDurationNs(hop.Exp))
+		seg.Ts = uint32(now.Add(500*time.Millisecond).Add(-life).Unix() + 1) // expiry in [now+0.5s, now+1.5s)
+		for i := range seg.Hops {
+			if &seg.Hops[i] != hop {
+				seg.Hops[i].Exp = 255
+			}
+		}
+		seg.Seal(rng)
+		in, err := sc.Packet(rng, nil)
+		if err != nil {
+			continue
+		}
+		v := rfix.JudgeHops(in, s.Cfg.HopKey, sc.Arr == rfix.ArrExternal)
+		if !v.Parsed || !v.CurMAC {
+			continue
+		}
+		items = append(items, item{sc: sc, in: in, exp: v.CurExpNs, out: sc.Arr == rfix.ArrExternal})
+		if v.CurExpNs > latest {
+			latest = v.CurExpNs
+		}
+	}
+	for i := range items {
+		it := &items[i]
+		buf := append([]byte{}, it.in...)
+		res := s.Process(buf, it.sc.In)
+		t1 := time.Now()
+		r.Eval(1)
+		switch {
+		case res.Panic != "":
+			r.Violation("C01:panic:"+mon.PanicSite(res.Stack), "panic while processing", witness(s, it.sc, "idle/first", it.in, &res))
+		case t1.UnixNano() >= it.exp:
+			r.Inconclusive("time-bracket")
+		case res.Forwarded():
+			r.Event("idle_accepted_before_expiry")
+		default:
+			r.Event("idle_fresh_not_forwarded") // another rule of the router applied; not C01's business here
+		}
+	}
+	// idle until every hop has expired (watchdog-free: the wait is bounded by construction, < 2 s)
+	if d := time.Until(time.Unix(0, latest).Add(250 * time.Millisecond)); d > 0 {
+		time.Sleep(d)
+	}
+	for i := range items {
+		it := &items[i]
+		buf := append([]byte{}, it.in...)
+		t0 := time.Now()
+		res := s.Process(buf, it.sc.In)
+		t1 := time.Now()
+		r.Eval(1)
+		if res.Panic != "" {
+			r.Violation("C01:panic:"+mon.PanicSite(res.Stack), "panic while processing", witness(s, it.sc, "idle/second", it.in, &res))
+			continue
+		}
+		r.Class("idle/expired-while-idle/forwarded=" + fmt.Sprint(res.Forwarded()))
+		if res.Forwarded() {
+			// reported by the universal oracle as forwarded-expired/current
+			universalC01(r, s, it.sc, "expired-while-processor-idle", it.in, &res, it.out, t0, t1)
+		} else {
+			r.Event("idle_rejected_after_expiry")
+		}
+	}
 }
